@@ -1,8 +1,12 @@
-"""Thorough tier: run the property's rules against every seeded change of /verif/seeded that targets it.
+"""Thorough tier: test the checker itself against the committed corpora.
 
-Each seeded patch is applied to a scratch copy of /repo/bellows (never to /repo).  The result is *reported* in the
-evidence file; it never changes the verdict on /repo (a patch that no longer applies to an edited tree is skipped,
-a missed seed is listed as missed)."""
+* every seeded change of /verif/seeded that targets the property (applied to a scratch copy of /repo/bellows, never to
+  /repo) must be reported by the property's rules;
+* every behaviour-preserving change of /verif/refactors must leave the property's rules silent (a violation there is a
+  false alarm, an analysis error a robustness gap).
+
+The result is *reported* in the evidence file (``selftest``) and on stdout; it never changes the verdict on /repo, which
+must depend on /repo only (a patch that no longer applies to an edited tree is skipped)."""
 from __future__ import annotations
 
 import json
@@ -10,45 +14,85 @@ import os
 import shutil
 import subprocess
 import tempfile
+from concurrent.futures import ProcessPoolExecutor
 
-from .core import VERIF, Run, load_known, match_known
-from .te import Repo
+from .core import VERIF
+
+
+def _one(args):
+    kind, sid, sd, prop, repo_root, seed = args
+    from . import rules  # noqa: F401  (registers the rules in the worker)
+    from .core import Run, load_known, match_known
+    from .te import Repo
+
+    known = load_known()
+    td = tempfile.mkdtemp(prefix="bsa-selftest-")
+    try:
+        shutil.copytree(os.path.join(repo_root, "bellows"), os.path.join(td, "bellows"))
+        p = subprocess.run(["patch", "-p1", "-s", "-f", "-i", os.path.join(sd, "patch.diff")], cwd=td, capture_output=True, text=True)
+        if p.returncode != 0:
+            return kind, sid, "skipped", [], []
+        run = Run(Repo(td), prop, "quick", seed).execute()
+        vs = [v for v in run.all_violations() if not match_known(v, prop, known)]
+        return kind, sid, ("violation" if vs else ("error" if run.errors() else "silent")), sorted({v.rule for v in vs}), [r for r, _ in run.errors()]
+    except Exception as ex:  # pragma: no cover
+        return kind, sid, "error", [], [repr(ex)[:100]]
+    finally:
+        shutil.rmtree(td, ignore_errors=True)
 
 
 def run_for(prop, repo_root, seed=0):
+    jobs = []
     base = os.path.join(VERIF, "seeded")
-    out = {"applied": 0, "detected": 0, "skipped": [], "missed": [], "detail": []}
-    if not os.path.isdir(base):
+    if os.path.isdir(base):
+        for sid in sorted(os.listdir(base)):
+            sd = os.path.join(base, sid)
+            mp = os.path.join(sd, "meta.json")
+            if os.path.exists(mp) and json.load(open(mp)).get("breaks") == prop:
+                jobs.append(("seed", sid, sd, prop, repo_root, seed))
+    rbase = os.path.join(VERIF, "refactors")
+    if os.path.isdir(rbase):
+        for rid in sorted(os.listdir(rbase)):
+            rd = os.path.join(rbase, rid)
+            if os.path.exists(os.path.join(rd, "patch.diff")):
+                jobs.append(("refactor", rid, rd, prop, repo_root, seed))
+    out = {"applied": 0, "detected": 0, "skipped": [], "missed": [], "detail": [],
+           "refactorings": {"applied": 0, "silent": 0, "false_alarms": [], "analysis_errors": [], "skipped": []}}
+    if not jobs:
         return {"selftest": out}
-    known = load_known()
-    for sid in sorted(os.listdir(base)):
-        sd = os.path.join(base, sid)
-        mp = os.path.join(sd, "meta.json")
-        if not os.path.exists(mp):
-            continue
-        meta = json.load(open(mp))
-        if meta.get("breaks") != prop:
-            continue
-        td = tempfile.mkdtemp(prefix="bsa-selftest-")
-        try:
-            shutil.copytree(os.path.join(repo_root, "bellows"), os.path.join(td, "bellows"))
-            p = subprocess.run(["patch", "-p1", "-s", "-f", "-i", os.path.join(sd, "patch.diff")], cwd=td,
-                               capture_output=True, text=True)
-            if p.returncode != 0:
+    with ProcessPoolExecutor(max_workers=min(14, os.cpu_count() or 2)) as ex:
+        results = list(ex.map(_one, jobs, chunksize=2))
+    for kind, sid, verdict, rules_, errs in results:
+        if kind == "seed":
+            if verdict == "skipped":
                 out["skipped"].append(sid)
                 continue
             out["applied"] += 1
-            run = Run(Repo(td), prop, "quick", seed).execute()
-            vs = [v for v in run.all_violations() if not match_known(v, prop, known)]
-            if vs:
+            if verdict == "violation":
                 out["detected"] += 1
-                out["detail"].append({"seed": sid, "rules": sorted({v.rule for v in vs}), "first": vs[0].message[:200]})
+                out["detail"].append({"seed": sid, "rules": rules_})
             else:
                 out["missed"].append(sid)
-                out["detail"].append({"seed": sid, "rules": [], "errors": [r for r, _ in run.errors()]})
-        finally:
-            shutil.rmtree(td, ignore_errors=True)
+                out["detail"].append({"seed": sid, "rules": [], "errors": errs})
+        else:
+            r = out["refactorings"]
+            if verdict == "skipped":
+                r["skipped"].append(sid)
+                continue
+            r["applied"] += 1
+            if verdict == "silent":
+                r["silent"] += 1
+            elif verdict == "violation":
+                r["false_alarms"].append({"refactoring": sid, "rules": rules_})
+            else:
+                r["analysis_errors"].append({"refactoring": sid, "rules": errs})
     for m in out["missed"]:
-        print(f"  selftest: seeded change {m} is NOT detected by the rules of {prop}")
-    print(f"  selftest: {out['detected']}/{out['applied']} seeded changes for {prop} detected, {len(out['skipped'])} skipped")
+        print(f"  selftest: seeded change {m} is NOT reported as a violation by the rules of {prop}")
+    for fa in out["refactorings"]["false_alarms"]:
+        print(f"  selftest: behaviour-preserving change {fa['refactoring']} raises a FALSE ALARM in {fa['rules']}")
+    for ae in out["refactorings"]["analysis_errors"]:
+        print(f"  selftest: behaviour-preserving change {ae['refactoring']} cannot be analysed by {ae['rules']}")
+    r = out["refactorings"]
+    print(f"  selftest: {out['detected']}/{out['applied']} seeded changes for {prop} detected ({len(out['skipped'])} skipped); "
+          f"{r['silent']}/{r['applied']} behaviour-preserving changes silent")
     return {"selftest": out}
